@@ -2,6 +2,7 @@ import Driver.Pure
 import Driver.Seq
 import Driver.Trace
 import Driver.P1
+import Driver.P6
 /-
   Line-protocol driver: `driver pure|seq < ops > answers`.
 -/
@@ -49,6 +50,13 @@ partial def loopP1 (h : IO.FS.Stream) (out : IO.FS.Stream) (st : Driver.P1V.VSt)
   out.putStrLn o
   loopP1 h out st'
 
+partial def loopP6 (h : IO.FS.Stream) (out : IO.FS.Stream) (st : Driver.P6V.VSt) : IO Unit := do
+  let line ← h.getLine
+  if line.isEmpty then return ()
+  let (st', o) := Driver.P6V.vStep st line
+  out.putStrLn o
+  loopP6 h out st'
+
 def main (args : List String) : IO UInt32 := do
   let stdin ← IO.getStdin
   let stdout ← IO.getStdout
@@ -57,6 +65,7 @@ def main (args : List String) : IO UInt32 := do
   | ["seq"] => loopSeq stdin stdout none; return 0
   | ["trace"] => loopTrace stdin stdout {}; return 0
   | ["p1"] => loopP1 stdin stdout {}; return 0
+  | ["p6"] => loopP6 stdin stdout {}; return 0
   | _ =>
-    IO.eprintln "usage: driver pure|seq|trace|p1"
+    IO.eprintln "usage: driver pure|seq|trace|p1|p6"
     return 2
